@@ -246,7 +246,8 @@ theorem applyPack_fst (h : AgreeV I I') (w : WM) (pack : List Cmd) :
         (packStep I (isCreateCmd first) first.entity) (packStep I' (isCreateCmd first) first.entity)
         (fun a b x hab => packStep_proj (isCreateCmd first) first.entity a b x hab)
         (if isCreateCmd first then rest else first :: rest)
-        (w0, { final := closedMask w0.deps initial0 }, []) (w0, { final := closedMask w0.deps initial0 }, []) rfl
+        (w0, { final := if isCreateCmd first then closedMask w0.deps initial0 else initial0 }, [])
+        (w0, { final := if isCreateCmd first then closedMask w0.deps initial0 else initial0 }, []) rfl
       simp only [Prod.mk.injEq] at key
       rw [key.1, key.2]
       exact packTail_fst h _ _ _ _ _ _ _ _
